@@ -31,15 +31,16 @@ variable (sp : Str → Option (Str × Str))
 
 /-- the host re-joined from the `h` stems -/
 def joinedHost (sa : Bool) (n : Str) : Str :=
-  if sa then hostJoined (specHost n) (splitSuffixParsed sp n) else specHost n
+  if sa then hostJoined (specHost n) (hostSplit sp n) else specHost n
 
 theorem hostStems_values (sa : Bool) (n : Str) :
     (hostStems sp sa n (specHost n)).map (·.2) ≠ [] ∧
       joinChar '.' ((hostStems sp sa n (specHost n)).map (·.2)).reverse = joinedHost sp sa n := by
-  unfold hostStems joinedHost
+  rw [hostStems_spec]
+  unfold joinedHost
   cases sa with
   | false => simpa using values_normalHostStems (specHost n)
-  | true => simpa using values_hostStemsOfSplit (specHost n) (splitSuffixParsed sp n)
+  | true => simpa using values_hostStemsOfSplit (specHost n) (hostSplit sp n)
 
 theorem joinedHost_of_stems_eq (sa : Bool) (nu nv : Str)
     (h : hostStems sp sa nu (specHost nu) = hostStems sp sa nv (specHost nv)) :
@@ -59,7 +60,7 @@ theorem joinedHost_of_stems_prefix (sa : Bool) (nu nv : Str)
 theorem lower_joinedHost (n : Str) (h : SplitLaw sp n) :
     lower (joinedHost sp true n) = lower (specHost n) := by
   simp only [joinedHost, if_true]
-  cases hs : splitSuffixParsed sp n with
+  cases hs : hostSplit sp n with
   | none => rfl
   | some ds =>
     obtain ⟨d, s⟩ := ds
@@ -178,11 +179,12 @@ theorem stems_prefix_of_under (u v : Parts) (hwu : wfNetloc u.netloc = true)
   apply under_to_nested id u v (fun e => by rw [e]; exact List.prefix_refl _) _ _ h
   · intro e
     simp only [id] at e
-    simp [hostStems, e]
+    rw [hostStems_spec, hostStems_spec]
+    simp [e]
   · intro hs
     simp only [id] at hs
     obtain ⟨pre, hpre⟩ := strictSub_iff.mp hs
-    simp only [hostStems, Bool.false_eq_true, if_false]
+    simp only [hostStems_spec, Bool.false_eq_true, if_false]
     rcases hnames with e | ⟨l1, l2⟩
     · rw [e]; exact List.prefix_refl _
     · rw [normalHostStems_of_labelHost l1, normalHostStems_of_labelHost l2, hpre, labelStems_sub]
@@ -208,7 +210,7 @@ theorem stems_prefix_of_under_partial (u v : Parts) (hwu : wfNetloc u.netloc = t
   apply under_to_nested id u v (fun e => by rw [e]; exact List.prefix_refl _) _ _ h
   · intro e
     simp only [id] at e
-    simp only [hostStems, if_true]
+    simp only [hostStems_spec, if_true]
     rcases hsame with ⟨a, b⟩ | ⟨du, dv, s, a, b⟩
     · rw [a, b]; simp [hostStemsOfSplit, e]
     · rw [a, b]
@@ -219,7 +221,7 @@ theorem stems_prefix_of_under_partial (u v : Parts) (hwu : wfNetloc u.netloc = t
   · intro hs
     simp only [id] at hs
     obtain ⟨pre, hpre⟩ := strictSub_iff.mp hs
-    simp only [hostStems, if_true]
+    simp only [hostStems_spec, if_true]
     rcases hsame with ⟨a, b⟩ | ⟨du, dv, s, a, b⟩
     · rw [a, b]
       simp only [hostStemsOfSplit]
@@ -291,13 +293,13 @@ theorem ukSplit_law (n : Str) (h : n = "uk".toList ∨ n = "co.uk".toList ∨ n 
     SplitLaw ukSplit n := by
   intro d s hds
   rcases h with rfl | rfl | rfl
-  · have : splitSuffixParsed ukSplit "uk".toList = some ([], "uk".toList) := by decide
+  · have : hostSplit ukSplit "uk".toList = some ([], "uk".toList) := by decide
     rw [this] at hds; simp only [Option.some.injEq, Prod.mk.injEq] at hds
     obtain ⟨rfl, rfl⟩ := hds; decide
-  · have : splitSuffixParsed ukSplit "co.uk".toList = some ([], "co.uk".toList) := by decide
+  · have : hostSplit ukSplit "co.uk".toList = some ([], "co.uk".toList) := by decide
     rw [this] at hds; simp only [Option.some.injEq, Prod.mk.injEq] at hds
     obtain ⟨rfl, rfl⟩ := hds; decide
-  · have : splitSuffixParsed ukSplit "a.co.uk".toList = some ("a".toList, "co.uk".toList) := by decide
+  · have : hostSplit ukSplit "a.co.uk".toList = some ("a".toList, "co.uk".toList) := by decide
     rw [this] at hds; simp only [Option.some.injEq, Prod.mk.injEq] at hds
     obtain ⟨rfl, rfl⟩ := hds; decide
 
